@@ -581,7 +581,8 @@ def build(repo=None):
     def m_compile(e_, s_, args, kw, nd):
         s1 = s_.clone()
         r = s1.alloc(Obj("compile-result", {"src": args[0] if args else NONE, "path": args[1] if len(args) > 1 else NONE, "mode": args[2] if len(args) > 2 else NONE,
-                                            "flags": args[3] if len(args) > 3 else kw.get("flags", NONE), "optimize": kw.get("optimize", NONE)}, tag="compile-result"))
+                                            "flags": args[3] if len(args) > 3 else kw.get("flags", NONE), "optimize": kw.get("optimize", NONE),
+                                            "dont_inherit": args[4] if len(args) > 4 else kw.get("dont_inherit", NONE)}, tag="compile-result"))
         s2 = s_.clone()
         return [(s1, r), (s2, Raised(Exc(frozenset({"SyntaxError", "ValueError"}), origin="compile")))]
 
@@ -631,6 +632,10 @@ def build(repo=None):
                              and to.attrs["optimize"] is opt_v and code.attrs["optimize"] is opt_v and isinstance(tro.attrs["by"], Ref) and tro.attrs["by"].h == tcobj.h
                              and any(isinstance(f_, Ref) and f_.h == tr.h for f_ in s1.ghost["fixed"])
                              and all(isinstance(x.attrs["mode"], Z) and z3.is_string_value(x.attrs["mode"].t) and x.attrs["mode"].t.as_string() == "exec" for x in (to, code)))
+        di_ok = False
+        if dec_ok or tr_ok:
+            di_ok = all(isinstance(x.attrs["dont_inherit"], Z) and x.attrs["dont_inherit"].kind == "bool" and z3.is_true(z3.simplify(x.attrs["dont_inherit"].t)) for x in (to, code))
+        eng.oblige(s1, "C10:both-compile-steps-pass-dont_inherit=True(the-hook-module's-own-__future__-flags-never-leak-into-the-hooked-module)", z3.BoolVal(bool(di_ok)))
         eng.oblige(s1, "C10:source_to_code-decodes-the-file-with-importlib's-decode_source(BOM-and-coding-cookie-aware)", z3.BoolVal(bool(dec_ok)))
         eng.oblige(s1, "C18:source_to_code-compiles-the-tree-transformed-with-this-loader's-checker", z3.BoolVal(bool(tr_ok)))
     collect(st.obl, ["C18", "C10", "C11", "C19"])
